@@ -1,6 +1,6 @@
 CONSTANTS
   N = 3
-  Plain = 2
+  Plain = 1
   Near = 2
   Alike = 2
   Site <- SiteAllRaw
